@@ -42,6 +42,7 @@ fn streams() -> Vec<Stream> {
         Stream { name: "random", count: (nt * 2_500, nt * 60_000), exhaustive: false, run: random },
         Stream { name: "random-large", count: (nt * 30, nt * 1_500), exhaustive: false, run: random_large },
         Stream { name: "wide-index", count: (nt * 200, nt * 5_000), exhaustive: false, run: wide_index },
+        Stream { name: "repeated-mint-policy", count: (8_000, 200_000), exhaustive: false, run: repeated_mint_policy },
         Stream { name: "fixed-tx-added-witnesses", count: (30_000, 800_000), exhaustive: false, run: fixed_tx_added },
         Stream { name: "body-masks", count: (1 << 18, 1 << 18), exhaustive: true, run: body_masks },
         Stream { name: "witness-masks", count: (64 * 8, 64 * 8), exhaustive: true, run: witness_masks },
@@ -181,6 +182,32 @@ fn wide_index(ctx: &mut Ctx, r: &mut Rng, i: u64) {
         }
     };
     let tags = g.tags.clone();
+    check_value(ctx, e, v.as_ref(), &tags);
+}
+
+/// `Mint::insert` appends: a mint that names a policy twice is a value of the public API (the ledger reads the
+/// two entries as one map with a repeated key; whether that is wise is not C01's question) and has to come back
+/// from its own bytes like any other, alone and inside a body / transaction / block
+fn repeated_mint_policy(ctx: &mut Ctx, r: &mut Rng, i: u64) {
+    let rg = reg(ctx);
+    let names = ["Mint", "TransactionBody", "Transaction", "TransactionBodies", "Block"];
+    let want = names[(i % names.len() as u64) as usize];
+    let e = match rg.iter().find(|e| e.name == want) {
+        Some(e) => e,
+        None => return,
+    };
+    let mut g = G::new(r, 3, 3);
+    g.repeat_mint_policy = true;
+    let v = match guard(|| (e.gen)(&mut g)) {
+        Ok(v) => v,
+        Err(p) => {
+            ctx.panic_seen(&p);
+            ctx.bucket("gen.constructor-panic");
+            return;
+        }
+    };
+    let tags = g.tags.clone();
+    ctx.bucket("repeated-mint-policy.cases");
     check_value(ctx, e, v.as_ref(), &tags);
 }
 
